@@ -22,6 +22,7 @@ import Lomond.Model.PersistLink
 import Lomond.Model.ZFrame
 import Lomond.Model.DeflEnc
 import Lomond.Model.CloseSocket
+import Lomond.Model.KeyChain
 import Lomond.Generated.Code
 
 namespace Lomond.Driver
@@ -422,6 +423,8 @@ def runHttp (args : List String) : String :=
   | ["sha1", hx] => hexOfBytes (Sha1.sha1 (hexD hx))
   | ["accept", hx] => hexOfBytes (Handshake.acceptFor (hexD hx))
   | ["keyof", hx] => hexOfBytes (Handshake.keyOfRequest (hexD hx))
+  -- `keychain <hex of the concatenated 16-byte nonces>`: the keys of one object's States (constructor, connect #1, #2, …)
+  | ["keychain", hx] => " ".intercalate ((KeyChain.chainKeys (hexD hx)).map hexOfBytes)
   | ["b64d", hx] =>
     match Handshake.b64decode (hexD hx) with
     | none => "error"
